@@ -64,7 +64,7 @@ type PuppetSpec struct {
 	QSize            int       // router->client queue size (0: default 64)
 	PipeBuf          int       // bytes (raw) or frames (ws) of "socket buffer" router->puppet
 	RecvLimit        int       // rawsocket server receive limit (0: default 16M)
-	LenNibble        int       // rawsocket: max length nibble the puppet announces (default 15)
+	LenNibble        int       // rawsocket: max length nibble the puppet announces (0: default 15; -1: nibble 0)
 	TransportDetails wamp.Dict // websocket: passed to AttachClient
 	ManualHandshake  bool      // rawsocket: the puppet script writes the 4 handshake bytes itself
 	WSPayloadType    int       // websocket: override payload type used by the router-side peer (0: natural)
@@ -536,6 +536,8 @@ func (w *World) AddPuppet(spec PuppetSpec) *Puppet {
 			nib := spec.LenNibble
 			if nib == 0 {
 				nib = 15
+			} else if nib < 0 {
+				nib = 0
 			}
 			serByte := byte(spec.Kind-RawJSON) + 1
 			p.enqueue(sendItem{raw: []byte{0x7f, byte(nib)<<4 | serByte, 0, 0}})
